@@ -525,6 +525,26 @@ def main(run):
         if errV > tolV or errG > tolG or errB > tolB:
             run.violation(site, "recovery" + ("-pressure" if c["pressure"] else "") + ("-outside-grid" if c["outside"] else ""),
                           "fitted V(T), G(T), B(T) differ from the parameters of the generating EOS: rel V %.3g, G %.3g eV, rel B %.3g" % (errV, errG, errB), info)
+        # ---- oracle: the order in which the volume points are listed is a choice of description — every array permuted consistently
+        # along its volume axis (a rotation of the list: not its own inverse) must give the same V(T), G(T), B(T)
+        # (seeded change r7-c20: inputs sorted along the volume axis with the inverse permutation for the energies)
+        if c["outside"] is None and nv >= 4 and not (errV > tolV or errG > tolG or errB > tolB):
+            k_ = 1 + (len(qcases) % 2)
+            perm = np.roll(np.arange(nv), k_)
+            arrs_p = {k2: (np.array(v2)[..., perm].copy() if k2 != "temperatures" else np.array(v2).copy()) for k2, v2 in caller_arrays(c, fph).items()}
+            try:
+                qp = run_qha(c, fph, arrays=arrs_p)
+                vtp, gtp, btp = np.array(qp.volume_temperature), np.array(qp.gibbs_temperature), np.array(qp.bulk_modulus_temperature)
+                eVp, eGp, eBp_ = float(np.abs(vtp / Vk[:L] - 1).max()), float(np.abs(gtp - Ek[:L]).max()), float(np.abs(btp / Bk[:L] - 1).max())
+            except Exception as exc:  # noqa: BLE001
+                eVp = eGp = eBp_ = float("inf")
+                run.count("volume-order oracle: analysis of the rotated list raised %s" % type(exc).__name__, section="oracle")
+            run.count("oracle-volume-order-independence", section="oracle")
+            if eVp > 10 * tolV or eGp > 10 * tolG or eBp_ > 10 * tolB:
+                run.violation(site, "volume-order" + ("-pressure" if c["pressure"] else ""),
+                              "with the volume points listed in another order (list rotated by %d, all arrays permuted consistently) the fitted V(T), G(T), B(T) "
+                              "differ from the parameters of the generating EOS: rel V %.3g, G %.3g eV, rel B %.3g (listed ascending: %.3g, %.3g, %.3g)" % (
+                                  k_, eVp, eGp, eBp_, errV, errG, errB), dict(info, volume_order=perm.tolist()))
         if c["pressure"] is None and c["shape"] == "V":
             be, bb, bbp, bv = qha.get_bulk_modulus_parameters()
             eE0, eB0, eBp, eV0 = c["el_params"]
